@@ -72,14 +72,12 @@ def parseView (j : Json) : Except String ViewDecl := do
   let tag ← (← j.getObjVal? "tag").getNat?
   let body ← parseBody (← j.getObjVal? "body")
   let pn ← (← j.getObjVal? "permname").getNat?
-  pure ⟨⟨rq, cx, name, preds, none, perm, isexc, xonly, tag, body, false⟩, pn⟩
+  pure ⟨mkStmt rq cx name preds perm isexc xonly tag body, pn⟩
 
 def parseWorld (j : Json) : Except String ExcView.World := do
   let e := fun (f : String) => do parseExc (← j.getObjVal? f)
-  pure { sec := ⟨← (← j.getObjVal? "policy").getBool?, ← (← j.getObjVal? "defperm").getBool?⟩,
-         notFound := ← e "nf", mismatch := ← e "mm", forbidden := ← e "fb",
-         excNotFound := ← e "xnf", excMismatch := ← e "xmm", excForbidden := ← e "xfb",
-         viewResponse := 0 }
+  pure (mkWorld ⟨← (← j.getObjVal? "policy").getBool?, ← (← j.getObjVal? "defperm").getBool?⟩
+    (← e "nf") (← e "mm") (← e "fb") (← e "xnf") (← e "xmm") (← e "xfb"))
 
 def parseKey (j : Json) : Except String CtxKey :=
   match j with
